@@ -1,8 +1,155 @@
 import Ypv.Drv.Codec
-/-! Driver handler for C17 (stub: replaced by the module that models C17) -/
+import Ypv.Model.Save
+/-! Driver handler for C17: save sequences, phases, abstract file system.
+
+Bytes travel as lower-case hex strings.  Steps travel as `{"k":"S|R|U|W|A|M|C","p":path,"d":hex?}`
+(stat, openRead, unlink, creatTrunc, append, setMeta, close). -/
 namespace Ypv.Drv.C17
 open Lean (Json)
+open Ypv Ypv.Drv Ypv.Save
 
-def handle (_op : String) (_j : Json) : Except String Json := throw "C17: driver not implemented yet"
+def hexVal (c : Char) : Option Nat :=
+  if '0' ≤ c ∧ c ≤ '9' then some (c.toNat - '0'.toNat)
+  else if 'a' ≤ c ∧ c ≤ 'f' then some (c.toNat - 'a'.toNat + 10)
+  else none
+
+def unhex : List Char → Except String Bytes
+  | [] => pure []
+  | [_] => throw "odd hex"
+  | a :: b :: r => do
+    match hexVal a, hexVal b with
+    | some x, some y => pure (UInt8.ofNat (x * 16 + y) :: (← unhex r))
+    | _, _ => throw "bad hex"
+
+def hexDigit (n : Nat) : Char := if n < 10 then Char.ofNat (n + 48) else Char.ofNat (n + 87)
+
+def hex (b : Bytes) : String :=
+  String.ofList (b.flatMap fun x => [hexDigit (x.toNat / 16), hexDigit (x.toNat % 16)])
+
+def getHex (j : Json) (k : String) : Except String Bytes := do unhex (← getStr j k).toList
+
+def getChunks (j : Json) (k : String) : Except String (List Bytes) := do
+  match j.getObjVal? k with
+  | .ok (.arr a) => a.toList.mapM (fun x => match x with
+      | .str s => unhex s.toList
+      | _ => throw "chunk: hex string expected")
+  | _ => pure []
+
+def getBoolD (j : Json) (k : String) (d : Bool) : Bool := (getBool j k).toOption.getD d
+def getNatD (j : Json) (k : String) (d : Nat) : Nat :=
+  match j.getObjValAs? Nat k with
+  | .ok n => n
+  | .error _ => d
+
+/-- `{"path": hex | null, …}` -/
+def fsOfJson (j : Json) : Except String (List (Str × Option Bytes)) := do
+  match j with
+  | .obj kvs => kvs.toList.mapM (fun (k, v) => do
+      match v with
+      | .null => pure (s2l k, none)
+      | .str s => pure (s2l k, some (← unhex s.toList))
+      | _ => throw "fs: hex or null expected")
+  | _ => throw "fs: object expected"
+
+def fsOfList (l : List (Str × Option Bytes)) : FS := fun p => (l.lookup p).join
+
+def stepToJson : Step → Json
+  | .stat p => Json.mkObj [("k", "S"), ("p", l2s p)]
+  | .openRead p => Json.mkObj [("k", "R"), ("p", l2s p)]
+  | .unlink p => Json.mkObj [("k", "U"), ("p", l2s p)]
+  | .creatTrunc p => Json.mkObj [("k", "W"), ("p", l2s p)]
+  | .append p c => Json.mkObj [("k", "A"), ("p", l2s p), ("n", Json.num (Lean.JsonNumber.fromNat c.length)), ("d", hex c)]
+  | .setMeta p => Json.mkObj [("k", "M"), ("p", l2s p)]
+  | .close p => Json.mkObj [("k", "C"), ("p", l2s p)]
+
+def stepOfJson (j : Json) : Except String Step := do
+  let k ← getStr j "k"
+  let p := s2l (← getStr j "p")
+  match k with
+  | "S" => pure (.stat p)
+  | "R" => pure (.openRead p)
+  | "U" => pure (.unlink p)
+  | "W" => pure (.creatTrunc p)
+  | "A" => pure (.append p (← getHex j "d"))
+  | "M" => pure (.setMeta p)
+  | "C" => pure (.close p)
+  | _ => throw s!"step kind {k}"
+
+def stepsOfJson (j : Json) (k : String) : Except String (List Step) := do
+  match j.getObjVal? k with
+  | .ok (.arr a) => a.toList.mapM stepOfJson
+  | _ => pure []
+
+def phaseName : Phase → String
+  | .parseArgs => "parseArgs" | .validate => "validate" | .load => "load" | .query => "query"
+  | .check => "check" | .apply => "apply" | .render => "render" | .save => "save" | .done => "done"
+
+def oracleOfJson (j : Json) : Oracle :=
+  let o := (j.getObjVal? "oracle").toOption.getD (Json.mkObj [])
+  { argsOk := getBoolD o "argsOk" true, validOk := getBoolD o "validOk" true,
+    loadOk := getBoolD o "loadOk" true, queryOk := getBoolD o "queryOk" true,
+    checkOk := getBoolD o "checkOk" true, applyOk := getBoolD o "applyOk" true,
+    renderOk := getBoolD o "renderOk" true, dumpOk := getBoolD o "dumpOk" true,
+    statOk := getBoolD o "statOk" true }
+
+def fsToJson (fs : FS) (paths : List Str) : Json :=
+  Json.mkObj (paths.map fun p => (l2s p, match fs p with
+    | none => Json.null
+    | some b => Json.str (hex b)))
+
+def outcomeToJson (fs : FS) (paths : List Str) (r : Outcome) : Json :=
+  Json.mkObj [("exit", Json.num (Lean.JsonNumber.fromNat r.exit)), ("phase", phaseName r.phase),
+    ("trace", Json.arr (r.trace.map stepToJson).toArray),
+    ("after", fsToJson (run fs r.trace) paths)]
+
+def handle (op : String) (j : Json) : Except String Json := do
+  let fsl ← fsOfJson ((j.getObjVal? "fs").toOption.getD (Json.mkObj []))
+  let fs := fsOfList fsl
+  let paths := fsl.map (·.1)
+  match op with
+  | "set" =>
+    -- yaml-set on file "t"
+    let t := s2l (← getStr j "t")
+    let r := runSet (oracleOfJson j) fs (getBoolD j "json" false) (getBoolD j "backup" false) t
+      (← getChunks j "oc") (← getChunks j "nc") (← getChunks j "rc")
+    pure (outcomeToJson fs paths r)
+  | "merge" =>
+    let dest ← match (← getStr j "dest") with
+      | "stdout" => pure Dest.stdout
+      | "output" => pure (Dest.output (s2l (← getStr j "t")))
+      | "overwrite" => pure (Dest.overwrite (s2l (← getStr j "t")) (getBoolD j "backup" false))
+      | d => throw s!"dest {d}"
+    let ins := ((← getArr j "ins").toList.filterMap fun x => match x with
+      | .str s => some (s2l s)
+      | _ => none)
+    let r := runMerge (oracleOfJson j) fs dest ins (getNatD j "mergeExit" 0)
+      (← getChunks j "oc") (← getChunks j "nc")
+    pure (outcomeToJson fs paths r)
+  | "rotate" =>
+    let t := s2l (← getStr j "t")
+    let tr := runRotateFile ((oracleOfJson j).statOk && (fs (bakOf t)).isSome) (getBoolD j "isFile" true) (getBoolD j "loadOk" true)
+      (getBoolD j "changed" true) (getBoolD j "backup" false) t (← getChunks j "oc") (← getChunks j "nc")
+    pure (Json.mkObj [("trace", Json.arr (tr.map stepToJson).toArray), ("after", fsToJson (run fs tr) paths)])
+  | "exec" =>
+    -- the file-system semantics applied to an observed step list
+    let steps ← stepsOfJson j "steps"
+    pure (Json.mkObj [("after", fsToJson (run fs steps) paths),
+      ("openW", Json.arr ((openW steps).map (fun p => Json.str (l2s p))).toArray)])
+  | "fault" =>
+    -- model state after a fault at step k of a `--backup` save followed by the cleanup `cl`
+    let t := s2l (← getStr j "t")
+    let w ← match (← getStr j "writer") with
+      | "setYaml" => pure Writer.setYaml
+      | "setJson" => pure Writer.setJson
+      | "mergeOverwrite" => pure Writer.mergeOverwrite
+      | "rotate" => pure Writer.rotate
+      | x => throw s!"writer {x}"
+    let steps := saveSteps ((oracleOfJson j).statOk && (fs (bakOf t)).isSome) w (getBoolD j "backup" true) t (← getChunks j "oc") (← getChunks j "nc")
+    let k := getNatD j "k" 0
+    let cl ← stepsOfJson j "cl"
+    let ok : Bool := decide (Cleanup (steps.take k) cl)
+    pure (Json.mkObj [("n", Json.num (Lean.JsonNumber.fromNat steps.length)), ("cleanupOk", Json.bool ok),
+      ("after", fsToJson (runFault fs steps k cl) (paths ++ [t, bakOf t]))])
+  | _ => throw s!"C17: unknown op {op}"
 
 end Ypv.Drv.C17
